@@ -517,8 +517,8 @@ func indistinguishableReply(sc *C1, got []byte) bool {
 		return false
 	}
 	full := sc.Full
-	if sc.IsExc || len(got) != len(full) {
-		return false
+	if sc.IsExc || sc.Endless || len(got) != len(full) {
+		return false // (in an endless flood the chunks run together: no read boundary is the transport's doing)
 	}
 	// ... and the transport itself ended a read exactly there (each scripted chunk is one read at most): a client that
 	// asks for less than was on offer so as not to see what follows gets no credit
